@@ -43,7 +43,9 @@ func Mutate(r *mon.Rand, s string, saddrs []string) string {
 	n := r.Range(1, 4)
 	for i := 0; i < n; i++ {
 		b := []byte(s)
-		switch r.Intn(15) {
+		switch r.Intn(16) {
+		case 15: // the record type token
+			s = mutateTypeToken(r, s)
 		case 14: // a run of white space (not only blanks) after the header, at an end, or at a token boundary
 			s = mutateWhitespace(r, s)
 		case 12: // a delimited group ({...}, (...), [...], "...", '...'): delete it, empty it, or drop one delimiter
@@ -200,4 +202,20 @@ func mutateWhitespace(r *mon.Rand, s string) string {
 		return s[:pos] + run
 	}
 	return s[:pos] + run + s[pos:]
+}
+
+// mutateTypeToken rewrites the name after "type=" (or puts a type token in front of a raw message): near-misses
+// of the UNKNOWN[n] syntax, other letter cases, brackets in the wrong order.
+func mutateTypeToken(r *mon.Rand, s string) string {
+	names := []string{"UNKNOWN]1329[", "][", "]x[", "]UNKNOWN[1329]", "UNKNOWN[", "UNKNOWN[]", "UNKNOWN[1329", "UNKNOWN1329]", "UNKNOWN[99999]", "UNKNOWN[-1]",
+		"UNKNOWN[ 5]", "unknown[5]", "Unknown[1300]", "syscall", "Syscall", "UNKNOWN[1300]x", "[1300]", "a]b[1]", "UNKNOWN[[1]]", "UNKNOWN[1][2]", "", "=", "UNKNOWN[0x10]", "UNKNOWN[٣]"}
+	n := mon.Pick(r, names)
+	if i := strings.Index(s, "type="); i >= 0 {
+		j := strings.IndexByte(s[i:], ' ')
+		if j < 0 {
+			j = len(s) - i
+		}
+		return s[:i+5] + n + s[i+j:]
+	}
+	return "type=" + n + " msg=" + s
 }
